@@ -228,6 +228,18 @@ func streamEnvAPI(o *Out, r *rand.Rand, n int, thorough bool) {
 					choice = 15
 				}
 			}
+			// every fifth history works on two type names only, looking them up from every scope between definitions
+			// in enclosing scopes; every fifth (another one) on two value names with scopes created while still empty
+			if it%5 == 1 {
+				name = []string{"T1", "rune", "int64"}[r.Intn(3)]
+				choice = []int{0, 0, 13, 13, 13, 14, 14, 14, 14, r.Intn(20)}[r.Intn(10)]
+				if choice == 14 {
+					i = len(w.envs) - 1 - r.Intn((len(w.envs)+1)/2) // mostly the inner scopes
+				}
+			} else if it%5 == 2 {
+				name = []string{"b", "zz"}[r.Intn(2)]
+				choice = []int{0, 0, 0, 2, 3, 6, 7, 8, 9, 10, 11, 12, 5, r.Intn(20)}[r.Intn(14)]
+			}
 			e := w.envs[i]
 			val := int64(r.Intn(10))
 			before := w.dumpAll()
